@@ -197,6 +197,14 @@ def _results_are_values(kind):
             r2 = second()
             P.check("%s:no_shared_memory" % name, not numpy.shares_memory(numpy.asarray(r1), numpy.asarray(r2)))
             P.check_eq("%s:earlier_result_unchanged" % name, r1.to_array(), keep)
+        # identity() is a value too: editing a pose obtained from it does not change what identity() returns later
+        cls = pose_cls(g, kind)
+        ident = cls.identity()
+        keep_id = numpy.array(ident.to_array(), copy=True)
+        ident[0] = ident[0] + 0.3
+        P.check_eq("identity_unaffected_by_edit_of_an_earlier_identity", cls.identity().to_array(), keep_id)
+        P.check_eq("right_identity_after_edit", (a + cls.identity()).to_array(), a.to_array())
+        P.check_eq("left_identity_after_edit", (cls.identity() + a).to_array(), a.to_array())
         # results as operands
         P.check_eq("nested_point_action", (a + (b + q)).to_array(), np.dot(Ma, np.dot(Mb, hom))[:n])
         raw = np.array([q[i] for i in range(n)])
